@@ -198,6 +198,21 @@ pub fn run_bulk_then(bulk: Bulk, h: &[Kv], next: Option<&Kv>) -> Result<(), Stri
                 break;
             }
         }
+        // how many items of the caller's iterator a bulk call may take: all of them, or
+        // everything up to AND INCLUDING the first rejected item ("stop at the first
+        // rejected item": a caller that resumes the iterator must find the next item)
+        let take_want: usize = {
+            let mut mm = RefBuilder::default();
+            let mut n = h.len();
+            for (i, (k, v)) in h.iter().enumerate() {
+                if mm.call(bulk.is_map(), k, *v) != Verdict::Ok {
+                    n = i + 1;
+                    break;
+                }
+            }
+            n
+        };
+        let taken = std::cell::Cell::new(usize::MAX);
         // the optional further call, judged by the reference builder
         let next_want: Option<Verdict> = next.map(|(k, v)| m.call(bulk.is_map(), k, *v));
         let do_next = |r: fst::Result<()>| -> Result<(), String> {
@@ -230,7 +245,12 @@ pub fn run_bulk_then(bulk: Bulk, h: &[Kv], next: Option<&Kv>) -> Result<(), Stri
             Bulk::MapExtendIter | Bulk::MapExtendStream => {
                 let mut b = MapBuilder::new(vec![]).unwrap();
                 let r = if bulk == Bulk::MapExtendIter {
-                    b.extend_iter(h.iter().map(|(k, v)| (k, *v)))
+                    {
+                        let mut it = h.iter().map(|(k, v)| (k, *v));
+                        let r = b.extend_iter(it.by_ref());
+                        taken.set(h.len() - it.len());
+                        r
+                    }
                 } else {
                     b.extend_stream(VecStreamU64::new(h))
                 };
@@ -245,7 +265,12 @@ pub fn run_bulk_then(bulk: Bulk, h: &[Kv], next: Option<&Kv>) -> Result<(), Stri
             Bulk::SetExtendIter | Bulk::SetExtendStream => {
                 let mut b = SetBuilder::new(vec![]).unwrap();
                 let r = if bulk == Bulk::SetExtendIter {
-                    b.extend_iter(h.iter().map(|(k, _)| k))
+                    {
+                        let mut it = h.iter().map(|(k, _)| k);
+                        let r = b.extend_iter(it.by_ref());
+                        taken.set(h.len() - it.len());
+                        r
+                    }
                 } else {
                     b.extend_stream(VecStreamKeys::new(h))
                 };
@@ -260,7 +285,12 @@ pub fn run_bulk_then(bulk: Bulk, h: &[Kv], next: Option<&Kv>) -> Result<(), Stri
             Bulk::RawExtendIter | Bulk::RawExtendStream => {
                 let mut b = raw::Builder::verif_new_with_registry(vec![], 0, 2, 2).unwrap();
                 let r = if bulk == Bulk::RawExtendIter {
-                    b.extend_iter(h.iter().map(|(k, v)| (k, Output::new(*v))))
+                    {
+                        let mut it = h.iter().map(|(k, v)| (k, Output::new(*v)));
+                        let r = b.extend_iter(it.by_ref());
+                        taken.set(h.len() - it.len());
+                        r
+                    }
                 } else {
                     b.extend_stream(VecStream::new(h))
                 };
@@ -275,6 +305,9 @@ pub fn run_bulk_then(bulk: Bulk, h: &[Kv], next: Option<&Kv>) -> Result<(), Stri
         };
         if got != want {
             return Err(format!("{:?} returned {:?}, first rejected item gives {:?}", bulk, got, want));
+        }
+        if taken.get() != usize::MAX && taken.get() != take_want {
+            return Err(format!("{:?} took {} items from the caller's iterator; it must stop at the first rejected item, i.e. after {} of the {} items", bulk, taken.get(), take_want, h.len()));
         }
         let is_extend = matches!(
             bulk,
@@ -391,7 +424,7 @@ pub fn plan(tier: Tier) -> Plan {
     } else {
         vec![b"".to_vec(), b"a".to_vec(), b"a\0".to_vec(), b"ab".to_vec(), b"b".to_vec()]
     };
-    p.rule = format!("every call history (valid, duplicate, smaller and empty keys at every position) of length <= depth over insert(k[,v]), k in {} keys, v in {{0,5}} for maps, on MapBuilder, SetBuilder, raw::Builder(insert only / add only); after EVERY prefix the builder is finished on a replayed copy and read back; each call result (variant and payload) and the content are compared with a reference builder, and the finished bytes with those of a builder of the same kind that only saw the accepted calls; the same histories go through from_iter / extend_iter / extend_stream (followed, for histories of length 2..4, by one further insert of every key of the alphabet, judged by the reference builder, and a final valid insert; and, for histories of length <= 4, split at every point into single inserts followed by one bulk call on the populated builder, followed in turn - for histories of length <= 3 - by one further insert of every key of the alphabet). non-trivial = histories containing at least one rejected call", keys.len());
+    p.rule = format!("every call history (valid, duplicate, smaller and empty keys at every position) of length <= depth over insert(k[,v]), k in {} keys, v in {{0,5}} for maps, on MapBuilder, SetBuilder, raw::Builder(insert only / add only); after EVERY prefix the builder is finished on a replayed copy and read back; each call result (variant and payload) and the content are compared with a reference builder, and the finished bytes with those of a builder of the same kind that only saw the accepted calls; the same histories go through from_iter / extend_iter / extend_stream (extend_iter over a borrowed iterator: exactly the items up to and including the first rejected one are taken) (followed, for histories of length 2..4, by one further insert of every key of the alphabet, judged by the reference builder, and a final valid insert; and, for histories of length <= 4, split at every point into single inserts followed by one bulk call on the populated builder, followed in turn - for histories of length <= 3 - by one further insert of every key of the alphabet). non-trivial = histories containing at least one rejected call", keys.len());
     p.assumptions = vec!["mixing add and insert on one raw builder is outside the property".into()];
     let alphabet_map: Vec<Kv> = keys.iter().flat_map(|k| [(k.clone(), 0u64), (k.clone(), 5u64)]).collect();
     let alphabet_set: Vec<Kv> = keys.iter().map(|k| (k.clone(), 0u64)).collect();
